@@ -4,7 +4,10 @@ is materialised in a scratch BBS environment and pushed through every read entry
 the bbs wrappers; allow / deny / mask must equal the extracted model and the specification. A sample of rows that holds every
 (deciding clause x administers x named moderator) class is run again on every degenerate board content (no article at all,
 nothing pinned, pinned only, both; files / counters there or not): the verdict of an entry point — read from the error value,
-never from an empty payload — must be the rule's on every content; and the listings on empty / singleton candidate lists."""
+never from an empty payload — must be the rule's on every content; and the listings on empty / singleton candidate lists. The two class listings (ptt / bbs LoadClassBoards,
+LoadFullClassBoards) run on class trees planted into the scratch environment (root and nested class; children: the row's board, unrestricted /
+hidden / level / over-18 class, link, ordinary board, vacated slot, the fixture's classes; chain resolved by the code or planted, both sort
+orders): they must return, with exactly the children the caller may list, in sibling order, each with its title."""
 import os, re, sys
 from concurrent.futures import ThreadPoolExecutor
 sys.path.insert(0, os.path.join(os.path.dirname(os.path.abspath(__file__)), "..", "lib"))
@@ -24,7 +27,8 @@ ARTICLE_EPS = ["ptt.IsBoardValidUser", "ptt.LoadGeneralArticles", "ptt.LoadBotto
 LISTING_EPS = ["ptt.LoadGeneralBoards", "ptt.LoadAutoCompleteBoards", "ptt.LoadBoardsByBids", "ptt.LoadHotBoards"]
 BBS_EPS = ["bbs.IsBoardValidUser", "bbs.LoadGeneralArticles", "bbs.LoadBottomArticles", "bbs.GetArticle"]
 MODELLED = {"IsBoardValidUser", "LoadGeneralArticles", "LoadBottomArticles", "FindArticleStartIdx", "ReadPost", "ReadPostTemplate",
-            "LoadGeneralBoards", "LoadAutoCompleteBoards", "LoadBoardsByBids", "LoadHotBoards", "LoadBoardSummary"}
+            "LoadGeneralBoards", "LoadAutoCompleteBoards", "LoadBoardsByBids", "LoadHotBoards", "LoadBoardSummary",
+            "LoadClassBoards", "LoadFullClassBoards"}
 # reachable from exported ptt functions but not read entry points of this property; each with the reason
 ELSEWHERE = {
     "NewPost": "write path (C08): starts with the same read guard, returns the new index entry",
@@ -33,8 +37,6 @@ ELSEWHERE = {
     "CrossPost": "write path (C08): read guard on the source board",
     "Recommend": "write path (C08/C10): read guard first",
     "NewBoard": "board creation (C12): returns the summary of the board just created by a board administrator",
-    "LoadClassBoards": "class listing: filter `state != INVALID || groupOp` as in the modelled listings; not among the property's observation points (reported as unmodelled; only the class without children is probed, op 6)",
-    "LoadFullClassBoards": "class listing: same filter; not among the property's observation points (reported as unmodelled)",
     "LoadGeneralArticlesSameCreateTime": "exported helper without a caller argument: probed by op 4 (known finding)",
     "DeleteArticles": "write path: moderator/owner checks of its own",
 }
@@ -527,7 +529,9 @@ def main():
                 class_case(r_, m_, c_, s_, rowgroup=rng.random() < 0.9)
     o7 = run_impl_par(l7)
     c.count(len(l7) * 4, "class listings: rows x class trees x 4 entry points")
-    m7 = None
+    if model and l7:
+        m7 = vf.run_model(model, l7)
+        vf.correspond(c, "class listings on planted class trees", l7, o7, m7)
     crashes = {}
     class_cov = {}
     for k7, (meta, line, o) in enumerate(zip(meta7, l7, o7)):
@@ -614,16 +618,23 @@ def main():
     c.cov["entry_points_unmodelled"] = {n: ELSEWHERE[n] for n in reach if n in ELSEWHERE}
     c.cov["exhaustive_parts"] = ["all %d consistent rows of the 2^16 decision table (%d inconsistent rows pruned: level = 0 with a level bit), each through 11 ptt entry points, "
                                  "5 bbs wrappers, boardPermStat and groupOp" % (n_consistent, (1 << 16) - n_consistent),
-                                 "all 32 board contents for every sampled row (the content domain of op 5 is enumerated completely)"]
+                                 "all 32 board contents for every sampled row (the content domain of op 5 is enumerated completely)",
+                                 "class listings: all 8 (chain mode x class x sort order) combinations for the first rows of every reason class"]
     c.finish(rule="every consistent row of the 16-input table, irrelevant permission/attribute bits drawn from PRNG(seed) (thorough: three draws per row); "
                   "plus group/symbolic variants of sampled rows; plus sampled rows through the inconsistent-pair and caller-less probes; "
                   "plus, for a PRNG(seed) sample of rows holding at least 25 rows of every (deciding clause x administers x named moderator) class, "
                   "the ten article entry points on all 32 board contents (index / pinned index / article file / template present or not, pinned "
                   "counter loaded or not) and the four listings on an empty and on a singleton candidate list (thorough: every row on the "
-                  "four index/pinned contents); a case is non-trivial if it is a distinct (row, group flag) / (content, row) / (listing variant, row)",
+                  "four index/pinned contents); plus, for every sampled row, the four class listings on a class tree drawn from PRNG(seed) "
+                  "(chain resolved by the code / planted in a random order, class root / nested class, sort by name / class — all 8 combinations for 4 rows "
+                  "of every class, one in rotation for the others; children: a random subset of the 7 planted kinds and the fixture's classes; the row's board a class or link in 9 of 10); "
+                  "a case is non-trivial if it is a distinct (row, group flag) / (content, row) / (listing variant, row) / (class tree shape, row)",
              assumptions=["the caller's uid is a valid logged-in uid (what every API handler derives from the token); uid 0 / -1 are not rows of the table",
                           "friend list and moderator cache are planted directly (file `visable` reloaded by the code itself; BMCache written into the segment) — how they are built is C12",
                           "listing paging (nBoards + 1, next cursor) is C11; here every listing is requested unpaged",
+                          "class listings: the class tree is planted into the board cache (Gid / FirstChild / Next / ChildCount, attributes and levels of fixture boards); "
+                          "a chain is acyclic and holds each board once; one class listing is bounded by ChildCount + 5 entries as in pttbbs (go's resolver leaves ChildCount at 0: five entries) — "
+                          "the reference applies that bound, listing size is C11's; children that are neither class nor link are not part of a class listing in go-pttbbs (its own filter, like group boards in the general listing)",
                           "board content is varied on the target board by removing / restoring its .DIR, .DIR.bottom, article file and post template; the "
                           "counters of the segment are those the code's own loaders (SetBTotal / SetBottomTotal) compute for that content, or 0 for 'not loaded yet'"])
 
